@@ -920,7 +920,7 @@ def path_snapshot(path):
             "number": path.path_number}
 
 
-def membership(path, ens, ens_num, subcycles=1, lattice=True):
+def membership(path, ens, ens_num, subcycles=1, lattice=True, shift=0.0):
     """Violations (list of (mech, text)) of 'path belongs to ensemble'."""
     out = []
     left, mid, right = ens["interfaces"]
@@ -974,7 +974,7 @@ def membership(path, ens, ens_num, subcycles=1, lattice=True):
                 out.append(("acc-frame-unreadable", f"frame {k} -> {fn}:{idx}"
                             f" {type(exc).__name__}"))
                 break
-            if float(x) != float(p.order[0]):
+            if float(x) + shift != float(p.order[0]):
                 out.append(("acc-order-not-of-frame", f"frame {k} stores "
                             f"order {p.order[0]} but {os.path.basename(fn)}:"
                             f"{idx} holds x={x}"))
@@ -994,10 +994,11 @@ def membership(path, ens, ens_num, subcycles=1, lattice=True):
 class MoveMonitor:
     """C09/C11 riders: what run_md returns, for every move of a history."""
 
-    def __init__(self, check_zero_swap=True, subcycles=1):
+    def __init__(self, check_zero_swap=True, subcycles=1, shift=0.0):
         self.snap = None
         self.check_zero_swap = check_zero_swap
         self.subcycles = subcycles
+        self.shift = float(shift)   # order = lattice site + shift
 
     def before_run_md(self, rig, md_items):
         self.snap = {e: path_snapshot(md_items["picked"][e]["traj"])
@@ -1045,7 +1046,8 @@ class MoveMonitor:
                                 move=out["moves"])
                 continue
             rig.reach("membership")
-            for mech, txt in membership(new, ens, e, self.subcycles):
+            for mech, txt in membership(new, ens, e, self.subcycles,
+                                        shift=self.shift):
                 rig.violate(mech, f"{'+'.join(out['moves'])} in ensemble {e} "
                             f"accepted: {txt}",
                             orders=[float(p.order[0])
@@ -1100,3 +1102,48 @@ class MoveMonitor:
                 rig.violate("zero-swap-wrong-crossing-frames:[0+]",
                             f"new [0+] path starts with {start1}, the old "
                             f"[0-] path ended with {want1}")
+
+
+# --------------------------------------------------------------------------
+class WeightVectorMonitor:
+    """C10 rider: the weight vector (and the reported extremes) that run_md
+    attaches to every accepted path must be that of the frames the path
+    actually holds - whatever chain of copies, pastes and extensions inside
+    the move produced it."""
+
+    def after_run_md(self, rig, out):
+        from vf.oracles import wfseg
+        picked = list(out["picked"])
+        ops = list(out.get("trial_op", []))[-len(picked):]
+        for k, e in enumerate(picked):
+            new = out["picked"][e]["traj"]
+            if out["status"] != "ACC":
+                continue
+            orders = [float(p.order[0]) for p in new.phasepoints]
+            if k < len(ops):
+                rig.reach("acc_reported_extremes")
+                if (float(ops[k][0]), float(ops[k][1])) != (min(orders),
+                                                            max(orders)):
+                    rig.violate("reported-extremes-differ-from-frames",
+                                f"ensemble {e}: run_md reports (min, max) = "
+                                f"{tuple(map(float, ops[k]))}, the frames "
+                                f"have {(min(orders), max(orders))}",
+                                moves=list(out["moves"]))
+            intf = [float(x) for x in out["interfaces"]]
+            moves = list(out["mc_moves"])
+            if e < 0:
+                want = (1.0,)
+            else:
+                want = wfseg.weight_vector(orders, intf, moves,
+                                           out.get("cap"))
+            got = None if new.weights is None else \
+                tuple(float(x) for x in new.weights)
+            rig.reach("acc_weight_vector")
+            rig.ev("acc_weight_vectors_" + "+".join(out["moves"]))
+            if got != tuple(want):
+                rig.violate("acc-weight-vector-differs-from-oracle",
+                            f"{'+'.join(out['moves'])} accepted in ensemble "
+                            f"{e}: run_md weights {got}, oracle on the "
+                            f"path's frames {tuple(want)}",
+                            orders=orders[:80], interfaces=intf,
+                            mc_moves=moves, cap=out.get("cap"))
